@@ -156,7 +156,8 @@ func parseIndexSection(sectionContents []byte, sectionsStart uint64, sos []secti
 	}
 	respSectionOffset := sectionsStart + respSectionRelOffset
 	makeRelativeToStream := func(offset, length uint64) (uint64, uint64, error) {
-		if offset+length > respso.Length {
+		// Written without offset+length, which can wrap around for hostile values.
+		if offset > respso.Length || length > respso.Length-offset {
 			return 0, 0, errors.New("bundle.index: response length out-of-range")
 		}
 		return respSectionOffset + offset, length, nil
@@ -217,7 +218,8 @@ func parseIndexSectionWithVariants(sectionContents []byte, sectionsStart uint64,
 	}
 	respSectionOffset := sectionsStart + respSectionRelOffset
 	makeRelativeToStream := func(offset, length uint64) (uint64, uint64, error) {
-		if offset+length > respso.Length {
+		// Written without offset+length, which can wrap around for hostile values.
+		if offset > respso.Length || length > respso.Length-offset {
 			return 0, 0, errors.New("bundle.index: response length out-of-range")
 		}
 		return respSectionOffset + offset, length, nil
@@ -495,19 +497,32 @@ func loadMetadata(bs []byte) (*meta, error) {
 		sectionsStart:  sectionsStart,
 	}
 
+	// First make sure that every section, known or not, lies inside the input. This also guarantees
+	// that sums of section lengths (see FindSection) cannot overflow.
 	offset := sectionsStart
+	for _, so := range sos {
+		if so.Length > uint64(len(bs))-offset {
+			return nil, &LoadMetadataError{fmt.Errorf("bundle: section %q's end out-of-range.", so.Name), FormatError, fallbackURL}
+		}
+		offset += so.Length
+	}
+
+	offset = sectionsStart
 
 	for _, so := range sos {
+		end := offset + so.Length
 		if _, exists := knownSections[so.Name]; !exists {
+			// Step over sections we do not understand.
+			offset = end
 			continue
 		}
 		if so.Name == "responses" {
+			offset = end
 			continue
 		}
 		if uint64(len(bs)) <= offset {
 			return nil, &LoadMetadataError{fmt.Errorf("bundle: section %q's computed offset %q out-of-range.", so.Name, offset), FormatError, fallbackURL}
 		}
-		end := offset + so.Length
 		if uint64(len(bs)) <= end {
 			return nil, &LoadMetadataError{fmt.Errorf("bundle: section %q's end %q out-of-range.", so.Name, end), FormatError, fallbackURL}
 		}
